@@ -20,8 +20,7 @@ from __future__ import annotations
 
 import ast
 import itertools
-import re
-from typing import Any, Callable, Iterable, Optional
+from typing import Callable, Iterable, Optional
 
 from .. import absint
 from ..core import Ctx
@@ -940,7 +939,6 @@ def check_selector_select(ctx: Ctx, rule: str) -> None:
                     and dotted(g0.ifs[0].func) == f'{me}.check' and len(g0.ifs[0].args) == 1 and dotted(g0.ifs[0].args[0]) == g0.target.id)
     ctx.ob(rule, 'Selector.select: the base selection is exactly the given resources that pass check()', ok, loc=f.loc(), construct=construct(f, 'flow:{r for r in resources if check(r)}'))
     paths = absint.analyse(repo, f, absint.Config(inline_props=set()))
-    it = absint.Interp(repo, f, absint.Config())
     bad = []
     rows = set()
     for p in paths:
@@ -1219,7 +1217,7 @@ def check_ensemble(ctx: Ctx, rule: str) -> None:
 def check_terminate(ctx: Ctx, rule: str) -> None:
     repo = ctx.repo
     f, g = cfg_of(ctx, f'{ORC}.terminate_redundancies')
-    rr, rn, ens = param(f, 'remaining_resources'), param(f, 'remaining_namespaces'), param(f, 'ensemble')
+    rr, rn = param(f, 'remaining_resources'), param(f, 'remaining_namespaces')
     dels = [c for c in calls_in(f.node) if is_call_to(repo, f, c, f'{ORC}.Ensemble.del_keys')]
     ctx.require_sites(rule, 'terminate_redundancies: removal of the redundant keys', len(dels), 1, f.loc())
     for c in dels:
